@@ -7,5 +7,5 @@ Separate Extraction
   BinInt.Z.add BinInt.Z.mul BinInt.Z.sub BinInt.Z.opp BinInt.Z.div BinInt.Z.modulo
   BinInt.Z.eqb BinInt.Z.ltb BinInt.Z.leb BinInt.Z.of_nat BinInt.Z.to_nat BinInt.Z.of_N BinInt.Z.to_N
   BinNat.N.add BinNat.N.mul BinNat.N.of_nat BinNat.N.to_nat
-  Vp8lSpec.decode_header Vp8lSpec.decode Vp8lEmit.emit Vp8lEmit.sem Vp8lWf.wf_planb Vp8lTrace.trace_decode Vp8lTrace.prefix_then_zeros
+  Vp8lSpec.decode_header Vp8lSpec.decode Vp8lEmit.emit Vp8lEmit.sem Vp8lWf.wf_planb Vp8lTrace.trace_decode Vp8lTrace.prefix_then_zeros Vp8lImport.forward_chain Vp8lEmit.sem_transforms Vp8lEmit.sem_eimg Vp8lPixel.px_eqb
   Vp8lImport.nrgba_model_chan Vp8lImport.fixed_fast_chan Vp8lImport.cleanup.
